@@ -37,6 +37,15 @@ fn matrix_of(c: &Case) -> Vec<f64> {
         for i in 0..c.r {
             for k in 0..c.o {
                 let t = k as f64;
+                if fam >= 6 {
+                    // mixed scales: a huge, inexactly summed mean next to a tiny spread (fam 6), and a size sweep fill (fam 7)
+                    v[i * c.o + k] = if fam == 6 {
+                        if i % 2 == 0 { 1e10 + t * 0.1 + (k % 3) as f64 } else { 1.0 + ((k * 7) % 11) as f64 * 1e-6 }
+                    } else {
+                        ((k * (5 + 2 * i) + i) % 13) as f64 * 0.25 - 1.0 + if (k + i) % 16 == 15 { 3.0 } else { 0.0 }
+                    };
+                    continue;
+                }
                 let base = match (fam + i) % 6 {
                     0 => t,                                             // ramp
                     1 => (t * t) % 7.0 - 3.0,                           // quadratic residues
@@ -280,6 +289,30 @@ fn main() {
         cases.into_iter(),
         |c, lx| {
             lx.nontrivial(c.r >= 2);
+            if c.ty == 0 {
+                run::<f64>(c, lx)
+            } else {
+                run::<f32>(c, lx)
+            }
+        },
+    );
+    // observation-count sweep (blocked / streaming implementations) and mixed scales
+    let omax = rep.cfg.pick(300, 1100);
+    let mut cases: Vec<Case> = Vec::new();
+    for o in nsmc::patterns::sizes(40, omax).into_iter().filter(|&o| o >= 2) {
+        for r in [2usize, 3] {
+            for fam in [6u64, 7] {
+                let li = (o + r + fam as usize) % layouts.len();
+                cases.push(Case { r, o, code: fam, structured: true, off: 0, ty: ((o + r) % 2) as u8, layout: layouts[li].clone() });
+            }
+        }
+    }
+    rep.run_sub(
+        "observation-count-sweep",
+        &format!("2 and 3 variables x every observation count 2..=40 and block threshold neighbourhoods up to {} x {{mixed scales: a variable near 1e10 next to one with spread 1e-6; small values with a bump every 16th observation}} x layouts rotating x f64/f32", omax),
+        cases.into_iter(),
+        |c, lx| {
+            lx.nontrivial(true);
             if c.ty == 0 {
                 run::<f64>(c, lx)
             } else {
